@@ -80,7 +80,8 @@ def check(ctx: Ctx):
         return "gains.values()" in t or "self._neighbors_gains.values()" in t
     flag, best = G.check_gain_arbitration_inline(ctx, hg, "R-MODE.d", "self._gain", gains_all)
     gd = [n for n in walk_no_nested(hg.node) if isinstance(n, ast.Assign) and norm(n.targets[0]) == "gains"]
-    ctx.check(len(gd) == 1 and "self._neighbors_gains.items()" in norm(gd[0].value) and not getattr(gd[0].value, "generators", [None])[0].ifs if gd and isinstance(gd[0].value, ast.DictComp) else False,
+    ctx.check((len(gd) == 1 and "self._neighbors_gains.items()" in norm(gd[0].value) and not getattr(gd[0].value, "generators", [None])[0].ifs if gd and isinstance(gd[0].value, ast.DictComp) else False)
+              or (len(gd) == 1 and norm(gd[0].value) in ("dict(self._neighbors_gains)", "self._neighbors_gains.copy()", "{**self._neighbors_gains}")),
               "R-FLOW", "MGM: arbitration over all stored neighbour gains", hg, gd[0] if gd else hg.node, "no neighbour gain may be filtered out before the arbitration")
     st = [n for n in walk_no_nested(hg.node) if isinstance(n, ast.Assign) and isinstance(n.targets[0], ast.Subscript) and is_self_attr(n.targets[0].value, "_neighbors_gains")]
     ctx.check(len(st) == 1 and norm(st[0].value) == f"({hg.params[2]}.value, {hg.params[2]}.random_nb)" and norm(st[0].targets[0].slice) == hg.params[1], "R-FLOW",
@@ -125,7 +126,7 @@ def check(ctx: Ctx):
               first[0] if first else hv2.node, "the current local cost must be recomputed when all neighbours' values are known, before offers and gains")
     clc = repo.func(MGM2, "Mgm2Computation._current_local_cost")
     t = norm(clc.node)
-    ctx.check("self._neighbors_values.copy()" in t and "self.variable.name: self.current_value" in t and "self._compute_cost(**assignment)" in t, "R-FRESH",
+    ctx.check(("self._neighbors_values.copy()" in t or "{**self._neighbors_values, " in t) and "self.variable.name: self.current_value" in t and "self._compute_cost(**assignment)" in t, "R-FRESH",
               "MGM2: current cost = cost of (neighbours' values + own current value)", clc, clc.node, "the current cost must be evaluated on the current assignment")
     M.check_comparator_coherence(ctx, cb2, "R-MODE.b", need_both=True, min_instances=2)
     # arbitration sites use the helpers
